@@ -840,6 +840,154 @@ def probe_sizes(cfg, s, workdir, rng, nprobe=24, prefix='barectf_'):
     return probes, None
 
 
+def probe_sizes32(cfg, s, workdir, rng, nprobe=10, prefix='barectf_', name='wrap32'):
+    """uint32_t wrap-around of the size pass (S12): the REAL static _er_size_<dst>_<ert>() functions are called with
+    ctx->at within a few thousand bits of 2^32, so that the additions and the _ALIGN macro wrap; the value returned is
+    compared with Layout/Wrap32.v er_size32 (the 32-bit size pass of the model, tied by Wrap32Proofs.v to the unbounded
+    one: equal below 2^32, equal modulo 2^32 beyond) evaluated by vm_compute on the model's own parts of the record.
+    Returns (list of dicts, error)."""
+    erts = sorted_erts(s)
+    ca = lg.CArgs()
+    lines, probes = [], []
+    W = 2 ** 32
+    for ei, e in enumerate(erts):
+        for k in range(nprobe):
+            at = W - rng.choice([1, 7, 8, 9, 63, 64, 65, rng.randrange(1, 64), 8 * rng.randrange(1, 64), rng.randrange(1, 6000)])
+            vals = [lg.rand_struct_vals(rng, st, 5) for st in scopes(cfg, s, e)]
+            args = []
+            for st, v in zip(scopes(cfg, s, e), vals):
+                args += dyn_args(ca, st, v)
+            lines.append('\tsctx.parent.at = %uU; printf("%%u\\n", (unsigned) _er_size_%s_%s(&sctx%s));' % (
+                at, s['name'], e['name'], ''.join(', ' + a for a in args)))
+            probes.append({'ert': ei, 'at': at, 'vals': vals,
+                           'true_size_bits': lg.record_end(cfg, s, e, vals, at) - at})
+    src = ['#include "barectf.c"', '#include <stdio.h>', '\n'.join(ca.decls),
+           'int main(void)\n{\n\tstatic struct %s%s_ctx sctx;' % (prefix, s['name']), '\n'.join(lines), '\treturn 0;\n}']
+    with open(os.path.join(workdir, 'probe32.c'), 'w') as f:
+        f.write('\n'.join(src) + '\n')
+    rc, out = bt.cc(['-w', '-O0', 'probe32.c', '-o', 'probe32'], cwd=workdir)
+    if rc != 0:
+        return None, 'wrap-around size probe does not compile: ' + out[-600:]
+    p = subprocess.run([os.path.join(workdir, 'probe32')], capture_output=True, text=True, timeout=60)
+    outv = p.stdout.split()
+    if p.returncode != 0 or len(outv) != len(probes):
+        return None, 'wrap-around size probe failed: rc %s, %d/%d lines' % (p.returncode, len(outv), len(probes))
+    for pr, v in zip(probes, outv):
+        pr['impl'] = int(v)
+    # model side
+    body = ['From Coq Require Import List ZArith NArith String Bool.', 'Import ListNotations.',
+            'From BT.Base Require Import Bits.', 'From BT.Layout Require Import Model Wrap32.',
+            'From BT.Tracer Require Import Model.',
+            'Local Open Scope nat_scope.',
+            'Definition d : dstm := %s.' % lg.coq_dst(cfg, s),
+            'Definition probes : list (nat * N * list val) := [']
+    body.append(';\n'.join('(%d, %d%%N, [%s])' % (pr['ert'], pr['at'], '; '.join(lg.coq_val(lg.model_val(v)) for v in pr['vals']))
+                           for pr in probes))
+    body.append('].')
+    body.append('Definition one (p : nat * N * list val) : Z := match p with (i, a, args) => '
+                'match nth_error (d_erts d) i with Some e => match er_size32 (rec_parts d e 0%Z args) a with '
+                'Some n => Z.of_N n | None => (-1)%Z end | None => (-2)%Z end end.')
+    body.append('Eval vm_compute in (map one probes).')
+    rc, out = run_cases_v(name, '\n'.join(body) + '\n', workdir, timeout=300)
+    m = re.search(r'=\s*\[(.*)\]\s*:\s*list Z', out, re.S)
+    if rc != 0 or not m:
+        return None, 'wrap-around size probe: the model side did not evaluate: ' + out[-600:]
+    mv = [int(x.replace('%Z', '').replace('(', '').replace(')', '').strip()) for x in m.group(1).split(';') if x.strip()]
+    if len(mv) != len(probes):
+        return None, 'wrap-around size probe: %d model values for %d probes' % (len(mv), len(probes))
+    for pr, v in zip(probes, mv):
+        pr['model32'] = v
+    return probes, None
+
+
+S12_CONFIG = """--- !<tag:barectf.org,2020/3/config>
+trace:
+  type:
+    $include: [stdint.yaml]
+    native-byte-order: le
+    data-stream-types:
+      ds:
+        $is-default: true
+        event-record-types:
+          ev:
+            payload-field-type:
+              class: struct
+              members:
+                - arr:
+                    field-type:
+                      class: dynamic-array
+                      element-field-type: uint8
+"""
+
+S12_MAIN = r"""
+#include <stdio.h>
+#include <stdlib.h>
+#include <string.h>
+#include "barectf.h"
+#define CANARY 4096
+static int closed;
+static int full(void *d) { (void) d; return 0; }
+static void op(void *d) { barectf_ds_open_packet((struct barectf_ds_ctx *) d); }
+static void cl(void *d) { barectf_ds_close_packet((struct barectf_ds_ctx *) d); closed++; }
+int main(int argc, char **argv)
+{
+	struct barectf_platform_callbacks cbs;
+	struct barectf_ds_ctx ctx;
+	size_t n = (size_t) strtoul(argv[1], NULL, 0), j;
+	uint8_t *arr = (uint8_t *) calloc(n, 1), *buf = (uint8_t *) malloc(256 + CANARY);
+	int ok = 1;
+	(void) argc;
+	if (!arr || !buf) { printf("nomem\n"); return 3; }
+	memset(&cbs, 0, sizeof cbs);
+	cbs.is_backend_full = full; cbs.open_packet = op; cbs.close_packet = cl;
+	memset(buf, 0, 256); memset(buf + 256, 0xCC, CANARY);
+	barectf_init(&ctx, buf, 256, cbs, &ctx);
+	barectf_ds_open_packet(&ctx);
+	barectf_ds_trace_ev(&ctx, (uint32_t) n, arr);
+	for (j = 0; j < CANARY; j++) if (buf[256 + j] != 0xCC) ok = 0;
+	printf("%u %d %d\n", (unsigned) barectf_discarded_event_records_count(&ctx), closed, ok);
+	return 0;
+}
+"""
+
+
+def demo_s12(workdir, nelem=2 ** 29):
+    """The uint32 wrap of the record size on the REAL generated tracer: a dynamic array of `nelem` uint8 elements
+    (8 * nelem bits) traced into a 256-byte packet.  Returns dict(discarded, closed, untouched) or dict(error)."""
+    d = os.path.join(workdir, 's12')
+    os.makedirs(d, exist_ok=True)
+    with open(os.path.join(d, 'config.yaml'), 'w') as f:
+        f.write(S12_CONFIG)
+    try:
+        with open(os.path.join(d, 'config.yaml')) as f:
+            bcfg = bt.barectf.configuration_from_file(f)
+        bt.generate(bcfg, d)
+    except Exception as exc:
+        return {'error': 'generation failed: %r' % (exc,)}
+    with open(os.path.join(d, 'main.c'), 'w') as f:
+        f.write(S12_MAIN)
+    rc, out = bt.cc(['-w', '-O1', '-g', '-fsanitize=address', '-I.', 'main.c', 'barectf.c', '-o', 'demo'], cwd=d)
+    if rc != 0:
+        return {'error': 'does not compile: ' + out[-400:]}
+    try:
+        p = subprocess.run([os.path.join(d, 'demo'), str(nelem)], capture_output=True, text=True, timeout=180)
+    except subprocess.TimeoutExpired:
+        return {'error': 'timeout'}
+    res = {'elements': nelem, 'packet_bytes': 256}
+    toks = p.stdout.split()
+    if 'AddressSanitizer' in p.stderr:
+        m = re.search(r'ERROR: AddressSanitizer: (\S+) on address.*?\n(\w+) of size (\d+)', p.stderr, re.S)
+        res.update(sanitizer=(m.group(1) + ', ' + m.group(2) + ' of size ' + m.group(3)) if m else p.stderr[:200],
+                   where=(re.search(r'#0 \S+ in (\S+)', p.stderr) or [None, '?'])[1])
+        return res
+    if toks == ['nomem']:
+        return {'error': 'not enough memory for the %d-element array' % nelem}
+    if p.returncode != 0 or len(toks) != 3:
+        return {'error': 'rc %s, output %r' % (p.returncode, (p.stdout + p.stderr)[-200:])}
+    res.update(discarded=int(toks[0]), packets_closed=int(toks[1]), bytes_after_buffer_untouched=toks[2] == '1')
+    return res
+
+
 # ------------------------------------------------------------------ 32-bit arithmetic probe of _reserve_er_space
 def reserve_reference(psize, off, at, er, fulls):
     """Decision of _reserve_er_space in UNBOUNDED arithmetic for a state with off <= at <= psize (what the
